@@ -18,6 +18,23 @@ structure WrapperMethod where
   /-- further uses of `s.lock` in the body -/
   otherLockUses : Nat
   stmts : Nat
+  /-- the method receives a `Provider[T]` operand -/
+  operandParam : Bool
+  /-- leading statements `other = snapshotOperand(other)`, before the lock call -/
+  snapshotStmts : Nat
+  /-- methods called directly on the operand parameter inside the body -/
+  operandCalls : Nat
+deriving DecidableEq, Repr
+
+/-- one case of the type switch of `snapshotOperand` (lock.go, hooks/C13-fix2.patch) -/
+structure SnapshotCase where
+  types : List String
+  /-- first statement is `typedOther.lock.<this>()` -/
+  lockFirst : String
+  /-- second statement is `defer typedOther.lock.<this>()` -/
+  deferRelease : String
+  /-- the returned expression -/
+  returns : String
 deriving DecidableEq, Repr
 
 /-- the type switch of one binary operation of `bitmap32` / `bitmap64` -/
@@ -36,26 +53,61 @@ structure TypeSwitch where
   selfMutationInsideEach : List Bool
 deriving DecidableEq, Repr
 
-/-- `s.lock.Lock(); defer s.lock.Unlock(); [return] s.provider.<same method>(…)` and nothing else -/
+/-- the protocol before hooks/C13-fix2.patch: `s.lock.Lock(); defer s.lock.Unlock(); [return] s.provider.<same
+method>(…)` and nothing else, for every method — a wrapper operand is then read under the receiver's lock -/
+def WrapperMethod.isLockDelegateUnlockOld (m : WrapperMethod) : Bool :=
+  m.lockFirst == "Lock" && m.deferRelease == "Unlock" && m.delegates == [m.name] && m.otherLockUses == 0 &&
+  m.snapshotStmts == 0 && m.stmts == 3
+
+/-- the live protocol: a method with an operand starts with `other = snapshotOperand(other)` — BEFORE the lock call —
+then `s.lock.Lock(); defer s.lock.Unlock(); s.provider.<same method>(other)`; it calls no method of the operand
+itself. A method without operand is `lock; defer unlock; delegate`. Nothing else in either. -/
 def WrapperMethod.isLockDelegateUnlock (m : WrapperMethod) : Bool :=
-  m.lockFirst == "Lock" && m.deferRelease == "Unlock" && m.delegates == [m.name] && m.otherLockUses == 0 && m.stmts == 3
+  m.lockFirst == "Lock" && m.deferRelease == "Unlock" && m.delegates == [m.name] && m.otherLockUses == 0 &&
+  m.operandCalls == 0 &&
+  (if m.operandParam then m.snapshotStmts == 1 && m.stmts == 4 else m.snapshotStmts == 0 && m.stmts == 3)
+
+/-- `snapshotOperand`: each wrapper type is cloned under ITS OWN lock (`Lock(); defer Unlock(); return
+typedOther.provider.Clone()`), anything else is returned unchanged -/
+def expectedSnapshotCases : List SnapshotCase :=
+  [{ types := ["threadSafeDuplex[T]"], lockFirst := "Lock", deferRelease := "Unlock", returns := "typedOther.provider.Clone()" },
+   { types := ["threadSafeSimplex[T]"], lockFirst := "Lock", deferRelease := "Unlock", returns := "typedOther.provider.Clone()" }]
 
 def duplexMethods : List String :=
   ["Add", "And", "AndNot", "Cardinality", "CheckedAdd", "Clear", "Clone", "Contains", "Each", "Or", "Remove", "Slice", "Xor"]
 def simplexMethods : List String := ["Add", "Cardinality", "Clear", "Clone", "Or"]
 
-/-- the wrappers are exactly what `Prov.guard`/`Prov.binop` and the LTS (`Call.locked = true`) model -/
-def wrappersOk (tbl : List WrapperMethod) : Bool :=
-  tbl.all WrapperMethod.isLockDelegateUnlock &&
+def binaryMethods : List String := ["And", "AndNot", "Or", "Xor"]
+
+def methodSetOk (tbl : List WrapperMethod) : Bool :=
   (tbl.filter (·.recv == "threadSafeDuplex")).map (·.name) == duplexMethods &&
   (tbl.filter (·.recv == "threadSafeSimplex")).map (·.name) == simplexMethods &&
-  tbl.all (fun m => m.recv == "threadSafeDuplex" || m.recv == "threadSafeSimplex")
+  tbl.all (fun m => m.recv == "threadSafeDuplex" || m.recv == "threadSafeSimplex") &&
+  tbl.all (fun m => m.operandParam == binaryMethods.contains m.name)
+
+/-- the wrappers are exactly what `Prov.guard`/`Prov.binop` and the LTS model. `snapshot = true`: the live protocol
+(snapshot a wrapper operand under its own lock, release, then lock; delegate; unlock — `Call.snapshot = Call.locked =
+Call.opLocked = true`); `snapshot = false`: lock.go before hooks/C13-fix2.patch. Exactly one of the two accepts a
+given lock.go. -/
+def wrappersOk (snapshot : Bool) (tbl : List WrapperMethod) (cases : List SnapshotCase) (dflt : String) : Bool :=
+  methodSetOk tbl &&
+  (if snapshot then tbl.all WrapperMethod.isLockDelegateUnlock && cases == expectedSnapshotCases && dflt == "other"
+   else tbl.all WrapperMethod.isLockDelegateUnlockOld && cases == [])
 
 /-- is method `name` of the duplex wrapper a lock-delegate-unlock body? (`false` if it is missing) -/
 def lockedIn (tbl : List WrapperMethod) (name : String) : Bool :=
   match tbl.find? (fun m => m.recv == "threadSafeDuplex" && m.name == name) with
   | some m => m.isLockDelegateUnlock
   | none => false
+
+/-- does method `name` snapshot its operand before taking the lock? -/
+def snapshotsIn (tbl : List WrapperMethod) (name : String) : Bool :=
+  match tbl.find? (fun m => m.recv == "threadSafeDuplex" && m.name == name) with
+  | some m => m.isLockDelegateUnlock && m.snapshotStmts == 1
+  | none => false
+
+/-- does `snapshotOperand` read a duplex wrapper under that wrapper's own lock? -/
+def snapshotLocks (cases : List SnapshotCase) : Bool := cases == expectedSnapshotCases
 
 def opMethod : BinOp → String
   | .or => "Or" | .and => "And" | .andNot => "AndNot" | .xor => "Xor"
